@@ -249,6 +249,22 @@ class Svc(rpyc.Service):
         return 77
 
 
+def annotate_nesting(events):
+    """every write event gets `nested` = the kind of the message whose _dispatch it happens inside (None: not inside one)"""
+    stack = {"A": [], "B": []}
+    for e in events:
+        sd = e.get("side")
+        if sd not in stack:
+            continue
+        if e["t"] == "dispatch_enter":
+            stack[sd].append(e.get("msg"))
+        elif e["t"] == "dispatch_exit":
+            if stack[sd]:
+                stack[sd].pop()
+        elif e["t"] == "write":
+            e["nested"] = stack[sd][-1] if stack[sd] else None
+
+
 class Harness(object):
     """one run of one workload with at most one injected fault"""
     def __init__(self, workload, fault=None):
@@ -473,6 +489,28 @@ class Harness(object):
                 stra, strb = net.stream_pair("A", "B")
                 self.rec = rec = protonet.Recorder(net)
                 rec.injector = self.injector
+                # observation only: which transport calls happen inside Connection._dispatch, and of which kind of message
+                # (a request written while a RESPONSE is being delivered -- the INSPECT round trip of _unbox, a callback --
+                # is nested in serve(); one written after serve() returned is not)
+                proto_cls = rpyc.core.protocol.Connection
+                orig_dispatch = proto_cls.__dict__["_dispatch"]
+                h = self
+
+                def observed_dispatch(conn, data):
+                    sd = None
+                    for k in "AB":
+                        if h.conn.get(k) is conn or getattr(getattr(conn, "_channel", None), "stream", None) is net.streams.get(k):
+                            sd = k
+                    if sd is None or not rec.enabled:
+                        return orig_dispatch(conn, data)
+                    rec.log(t="dispatch_enter", side=sd, msg=protonet.peek_msg_seq(bytes(data))[0])
+                    try:
+                        return orig_dispatch(conn, data)
+                    finally:
+                        rec.log(t="dispatch_exit", side=sd)
+                proto_cls._dispatch = observed_dispatch
+                self._restore_dispatch = lambda: setattr(proto_cls, "_dispatch", orig_dispatch)
+                self.conn = {}
                 cfg = {"A": {"sync_request_timeout": 30}, "B": {"sync_request_timeout": 30}}
                 for side in "AB":
                     mode = w.get("before_closed_" + side.lower())
@@ -534,8 +572,11 @@ class Harness(object):
                 self.b = None
                 net.shutdown()
         finally:
+            if getattr(self, "_restore_dispatch", None):
+                self._restore_dispatch()
             if old_gc:
                 gc.enable()
+        annotate_nesting(self.rec.events)
         return self
 
     def classic_service(self, side):
@@ -941,9 +982,6 @@ def abstract(h, side):
                 elif last_r is not None:
                     toks[last_r] = toks[last_r][:-1] + c
             continue
-        was_delivering = delivering
-        if t in ("recv", "poll") or (t == "write" and e.get("handler") != consts.HANDLE_DEL) or t.startswith("api_"):
-            delivering = False          # the next transport call / API call of this side: the delivery is over (or nested)
         if t == "write":
             msg = e["msg"]
             if msg == consts.MSG_REQUEST:
@@ -961,7 +999,8 @@ def abstract(h, side):
                 ref = "T" if e.get("ref") else "F"
                 if e["own_closed"]:
                     toks.append("is%d:%s" % (s, ref))
-                elif not e["ok"] and was_delivering and e.get("handler") != consts.HANDLE_DEL:
+                elif not e["ok"] and e.get("nested") in (consts.MSG_REPLY, consts.MSG_EXCEPTION) \
+                        and e.get("handler") != consts.HANDLE_DEL:
                     toks.append("fn%d" % s)       # made while a response was being delivered: met while serving
                     last_r = len(toks) - 1
                 elif not e["ok"]:
@@ -1004,11 +1043,9 @@ def abstract(h, side):
                         close_req_seq = f["seq"]
                 else:
                     toks.append("rp%d:%d" % (f["seq"], frame_val(f)))
-                    delivering = True
                     pending_frame = None
                     continue
             pending_frame = None
-            delivering = False
             continue
         if t == "poll":
             if e.get("oserr"):
@@ -2003,8 +2040,6 @@ def oracle(h):
         must1 = False
         reason = None
         awaiting = False
-        delivering_o = False
-        pend_o = None
         for e in ev:
             if e["t"] == "snapshot" and e["n"] == 1:
                 if awaiting:
@@ -2039,18 +2074,10 @@ def oracle(h):
                 must1, reason = True, "EOF / I/O error while receiving (%s)" % t
             elif t == "write" and e["msg"] != consts.MSG_REQUEST and not e["ok"]:
                 must1, reason = True, "failure while a response was being written"
-            elif t == "write" and e["msg"] == consts.MSG_REQUEST and not e["ok"] and not e["own_closed"] and delivering_o \
+            elif t == "write" and e["msg"] == consts.MSG_REQUEST and not e["ok"] and not e["own_closed"] \
+                    and e.get("nested") in (consts.MSG_REPLY, consts.MSG_EXCEPTION) \
                     and e.get("handler") not in (consts.HANDLE_DEL, consts.HANDLE_CLOSE):
                 must1, reason = True, "a request made while a response was being delivered (inside serve()) could not be written"
-            if t in ("recv", "poll", "write") or t.startswith("api_"):
-                if not (t == "write" and e.get("handler") == consts.HANDLE_DEL):
-                    delivering_o = False
-            if t == "recvbody":
-                delivering_o = bool(pend_o is not None and pend_o.get("msg") in (consts.MSG_REPLY, consts.MSG_EXCEPTION)
-                                    and not (e.get("eof") or e.get("faulted")) and pend_o.get("cut") is None)
-                pend_o = None
-            if t == "recv":
-                pend_o = e
             if t == "finish":
                 awaiting = True
             elif t == "write" and e["msg"] != consts.MSG_REQUEST:
